@@ -74,7 +74,7 @@ impl From<InternalConnectionError> for ErrorOrigin {
 //@tag C05
 //@ret r
 //@sig
-        ensures r == ErrorOrigin::Internal(error),
+        ensures r == ErrorOrigin::Internal(error), // [C05.conv.from]
 //@end
 }
 impl From<ConnectionErrorIncoming> for ErrorOrigin {
@@ -82,7 +82,7 @@ impl From<ConnectionErrorIncoming> for ErrorOrigin {
 //@tag C05
 //@ret r
 //@sig
-        ensures r == ErrorOrigin::Quic(error),
+        ensures r == ErrorOrigin::Quic(error), // [C05.conv.from]
 //@end
 }
 
